@@ -39,7 +39,7 @@ def build(sel):
     names = [ATOMN[(sel["name"] + k) % len(ATOMN)] for k in range(n)]
     arr.atom_name = np.array([a for a, _ in names])
     arr.element = np.array([e for _, e in names])
-    arr.chain_id = np.array(["A", "A", "B", "B"])
+    arr.chain_id = np.array(CHAIN_IDS[sel.get("chn", 0)])       # (a blank chain identifier is legal in the format)
     arr.res_name = np.array([["ALA", "GL", "U", "HOH"][(sel["resn"] + k) % 4] for k in range(n)])
     arr.res_id = np.array([IDS[sel["rid"]], IDS[sel["rid"]], 1, 2])      # (second residue: same id, insertion code 'A')
     arr.ins_code = np.array(["", "A", "", ""])
@@ -111,7 +111,7 @@ def check_pdb(sel):
                 return f"coordinate {float(want)!r} written as {got!r}: {line!r}"
         if fld["record"].strip() != ("HETATM" if atoms.hetero[i] else "ATOM"):
             return f"record name: {line!r}"
-        if fld["name"].strip() != atoms.atom_name[i] or fld["resname"].strip() != atoms.res_name[i] or fld["chain"] != atoms.chain_id[i]:
+        if fld["name"].strip() != atoms.atom_name[i] or fld["resname"].strip() != atoms.res_name[i] or fld["chain"] != (atoms.chain_id[i] or " "):
             return f"name/resname/chain columns: {line!r}"
         if fld["element"].strip() != atoms.element[i] or fld["icode"].strip() != atoms.ins_code[i]:
             return f"element / insertion code columns: {line!r}"
@@ -159,16 +159,17 @@ def check_pdb(sel):
     return None
 
 
+CHAIN_IDS = [["A", "A", "B", "B"], ["", "", "B", "B"], ["", "", "", ""], ["A", "A", "", ""]]
 HETERO = [[False, False, True, True], [True, True, True, True], [False, False, False, False], [True, False, False, True]]
-KEYS = dict(het=len(HETERO), name=len(ATOMN), resn=4, rid=len(IDS), coord=len(COORDS), catom=4, caxis=3, opt=16, bfac=len(BFACS), charge=10,
+KEYS = dict(chn=len(CHAIN_IDS), het=len(HETERO), name=len(ATOMN), resn=4, rid=len(IDS), coord=len(COORDS), catom=4, caxis=3, opt=16, bfac=len(BFACS), charge=10,
             aid=len(IDS), bonds=2, box=2, models=2, hybrid=2)
-DEFAULT = dict(het=0, name=0, resn=0, rid=0, coord=0, catom=0, caxis=0, opt=0, bfac=0, charge=1, aid=0, bonds=0, box=0, models=1, hybrid=0)
+DEFAULT = dict(chn=0, het=0, name=0, resn=0, rid=0, coord=0, catom=0, caxis=0, opt=0, bfac=0, charge=1, aid=0, bonds=0, box=0, models=1, hybrid=0)
 
 
 def ob_records(tier):
     groups = [("coord", "catom", "caxis", "models"), ("bfac", "opt", "catom"), ("name", "resn", "charge", "opt"),
               ("rid", "aid", "hybrid", "opt"), ("bonds", "box", "models", "hybrid", "opt"),
-              ("het", "models", "bonds", "resn", "box")]
+              ("het", "models", "bonds", "resn", "box"), ("chn", "rid", "hybrid", "models")]
     if tier == "thorough":
         groups += [("coord", "bfac", "opt", "models", "catom"), ("name", "rid", "aid", "hybrid", "opt")]
     cases = []
